@@ -212,7 +212,8 @@ class Gen:
         out = []
         for s in sigs(prop):
             n = s.split(" ", 1)[0]
-            if re.search(r"Loop|Outer|counterexample", n) or (skip and re.search(skip, n)) or (only and not re.search(only, n)):
+            # negative statements (`theorem … : ¬ …`, e.g. "the code before the fix does not satisfy …") have no safety face
+            if re.search(r"Loop|Outer|counterexample|_excludes_", n) or re.search(r":\s*¬", s.split(":=")[0][:len(n) + 8]) or (skip and re.search(skip, n)) or (only and not re.search(only, n)):
                 continue
             c = self.corollary(prop, dom, suffix, s, rename or {}, docs or {})
             if c:
@@ -469,7 +470,7 @@ def assemble():
             g.gen("C14", "num", "no_ub"))
     section("duration arithmetic (model Tetl.C12): no signed overflow in the representation type", "durations",
             "Tetl.C12 Tetl.C12.Props Tetl.C14", "", g.gen("C12", "duration", "no_ub"))
-    section("constant-evaluated rounding (model Tetl.C13)", "gcem", "Tetl.C13 Tetl.C13.Spec Tetl.C13.Fmt Tetl.C13.Lemmas", "",
+    section("constant-evaluated rounding (model Tetl.C13)", "gcem", "Tetl.C13 Tetl.C13.Spec Tetl.C13.Fmt Tetl.C13.Lemmas Tetl.C13.FmaSqrt", "",
             g.gen("C13", "cmath", "no_ub"))
     section("floating-point classification and rounding (model Tetl.C16)", "floats", "Tetl.C16", "", g.gen("C16", "fp", "no_ub"))
     section("ratio arithmetic and comparison, numeric_limits (model Tetl.C15)", "ratios", "Tetl.C15", "",
